@@ -513,4 +513,13 @@ def labelF (k : Kind) (pc : Nat) : String :=
   | .frag .., 1 => "AF1"
   | _, _ => "?"
 
+/-! ### the SvResync gate (c2/vars.go receiveSingle, `case SvResync: if !s.hasJob(n.Job) { return }`) -/
+
+/-- `hasJob`: a read of the pending table under the lock -/
+def hasJob (table : Nat → Option Nat) (id : Nat) : Bool := (table id).isSome
+
+/-- whether the settings an SvResync packet carries are applied to the Session: only while the Job it
+names is pending — there is no other condition (no shortcut for low numbers) -/
+def resyncApplied (table : Nat → Option Nat) (id : Nat) : Bool := hasJob table id
+
 end XMT.Job
